@@ -34,7 +34,7 @@ Sums(L, X, Tm) ==
 Event(L, X, dn, Tm, S) ==
   [ma |-> X.ma, ch |-> X.ch, dn |-> dn, T |-> Tm, S |-> S, acc |-> Tm, accS |-> S, op |-> Tm,
    opsum |-> [j \in 1..12 |-> SumSeq(FamSeq(Tm)[j], L.K - 1)], opS |-> S, sa |-> [has |-> FALSE],
-   fs |-> [kind |-> "none", v |-> QInt(0)]]
+   fs |-> [kind |-> "none", v |-> QInt(0)], ident |-> FALSE]
 \* Welford's sums of the classical contributions over all surfaces (the image surface included)
 WSums(L, X, dn) ==
   LET c == [k \in 1..L.K |-> Contrib(L, X.ma, X.ch, dn, k)]
